@@ -30,15 +30,16 @@ func VerifC18Stats() {
 	n := 3
 	s.Start(key, cap, 7, uint32(n), "uuid", "client", "wallet")
 	var lastID uint32
+	var issued []uint32
 	for round := 0; round < n; round++ {
 		verifnd.Assert(len(cap.sent) == round+1, "setup.stats.ping_issued")
 		ping := cap.sent[len(cap.sent)-1].(*hagallpb.Response)
 		lastID = ping.RequestId
-		for id := range s.PingRequests {
-			if id != lastID {
-				verifnd.Assume(id != lastID)
-			}
+		// server ping ids are pairwise distinct (a collision needs two pings exactly 2^32 ns apart: outside the claim)
+		for _, old := range issued {
+			verifnd.Assume(old != lastID)
 		}
+		issued = append(issued, lastID)
 		err := s.OnPing(lastID)
 		verifnd.Assert(err == nil, "setup.stats.ping_accepted")
 		// each round trip takes less than 2^36 ns (about 68 s)
